@@ -61,35 +61,49 @@ def Tree.leafAt : Tree → Nat → Bytes
   | .leaf b, _ => b
   | .node l r, i => if i / 2 ^ l.depth % 2 = 0 then l.leafAt (i % 2 ^ l.depth) else r.leafAt (i % 2 ^ l.depth)
 
-/-- Idealised hash assumptions, stated as *hypotheses* (never axioms): outputs are 32 bytes and the
-    hash is injective on 64-byte inputs (collision resistance). -/
+/-- An explicit collision of `H` on 64-byte inputs: two different concatenations of two 32-byte nodes with the same hash.
+    Every real hash function with 32-byte outputs *has* such pairs (there are 256^64 inputs and 256^32 outputs); collision
+    resistance means nobody can exhibit one.  The theorems below therefore never assume that there is none — an assumption
+    no function satisfies, under which anything would follow — they *return* the pair. -/
+def Collision64 (H : Bytes → Bytes) : Prop :=
+  ∃ a b : Bytes, a.length = 64 ∧ b.length = 64 ∧ a ≠ b ∧ H a = H b
+
+/-- the only assumption on the hash: its outputs are 32 bytes (true of double SHA-256) -/
+def Out32 (H : Bytes → Bytes) : Prop := ∀ b, (H b).length = 32
+
+/-- The former idealisation (outputs 32 bytes **and** injective on 64-byte inputs), kept only to state the corollaries in
+    their familiar form; see `Collision64` for why the main theorems do not use it. -/
 structure IdealHash (H : Bytes → Bytes) : Prop where
   out32 : ∀ b, (H b).length = 32
   inj64 : ∀ a b : Bytes, a.length = 64 → b.length = 64 → H a = H b → a = b
 
-theorem Tree.root_len {H} (hH : IdealHash H) (t : Tree) (hp : t.Perfect) : (t.root H).length = 32 := by
+theorem IdealHash.no_collision {H} (hH : IdealHash H) : ¬ Collision64 H := by
+  rintro ⟨a, b, ha, hb, hne, h⟩; exact hne (hH.inj64 a b ha hb h)
+
+theorem Tree.root_len {H} (hH : Out32 H) (t : Tree) (hp : t.Perfect) : (t.root H).length = 32 := by
   cases t with
   | leaf b => exact hp
-  | node l r => exact hH.out32 _
+  | node l r => exact hH _
 
-theorem foldUp_len {H} (hH : IdealHash H) (cur : Bytes) (path : List Bytes) (i : Nat)
+theorem foldUp_len {H} (hH : Out32 H) (cur : Bytes) (path : List Bytes) (i : Nat)
     (hc : cur.length = 32) : (foldUp H cur path i).length = 32 := by
   induction path generalizing cur i with
   | nil => simpa [foldUp]
-  | cons p ps ih => simp only [foldUp]; apply ih; unfold stepNode; split <;> exact hH.out32 _
+  | cons p ps ih => simp only [foldUp]; apply ih; unfold stepNode; split <;> exact hH _
 
-/-- **Position binding.** Under the collision-resistance hypothesis, if a 32-byte leaf hashes up a
-    well-formed path of the tree's depth to the tree's root at position `i < 2^depth`, then the
-    leaf *is* the tree's leaf at position `i`. -/
-theorem C04_position_binding {H} (hH : IdealHash H) (t : Tree) (hp : t.Perfect)
+/-- **Position binding.**  If a 32-byte leaf hashes up a well-formed path of the tree's depth to the tree's root at
+    position `i < 2^depth`, then the leaf *is* the tree's leaf at position `i` — or the run exhibits a collision of the
+    hash on two 64-byte inputs.  No assumption on `H` beyond the size of its outputs. -/
+theorem C04_position_binding {H} (hH : Out32 H) (t : Tree) (hp : t.Perfect)
     (leaf : Bytes) (path : List Bytes) (i : Nat)
     (hl : leaf.length = 32) (hpath : ∀ c ∈ path, c.length = 32)
     (hd : path.length = t.depth) (hi : i < 2 ^ t.depth)
-    (hroot : foldUp H leaf path i = t.root H) : leaf = t.leafAt i := by
+    (hroot : foldUp H leaf path i = t.root H) : leaf = t.leafAt i ∨ Collision64 H := by
   induction t generalizing path i with
   | leaf b =>
     simp [Tree.depth] at hd
     subst hd
+    left
     simpa [foldUp, Tree.root, Tree.leafAt] using hroot
   | node l r ihl ihr =>
     obtain ⟨hpl, hpr, hdep⟩ := hp
@@ -113,27 +127,59 @@ theorem C04_position_binding {H} (hH : IdealHash H) (t : Tree) (hp : t.Perfect)
     simp only [Tree.leafAt]
     split at hroot
     · rename_i hbit
-      have := hH.inj64 _ _ (by simp [hsub, hlast]) (by simp [hlr, hrr]) hroot
-      have h1 := List.append_inj_left this (by rw [hsub, hlr])
-      rw [if_pos hbit]
-      rw [hfold] at h1
-      exact ihl hpl init (i % 2 ^ l.depth) hinit hlen hlt h1
+      by_cases heq : foldUp H leaf init i ++ last = l.root H ++ r.root H
+      · have h1 := List.append_inj_left heq (by rw [hsub, hlr])
+        rw [if_pos hbit]
+        rw [hfold] at h1
+        exact ihl hpl init (i % 2 ^ l.depth) hinit hlen hlt h1
+      · exact Or.inr ⟨_, _, by simp [hsub, hlast], by simp [hlr, hrr], heq, hroot⟩
     · rename_i hbit
-      have := hH.inj64 _ _ (by simp [hsub, hlast]) (by simp [hlr, hrr]) hroot
-      have h1 := List.append_inj_right this (by rw [hlast, hlr])
-      rw [if_neg hbit]
-      rw [hfold] at h1
-      exact ihr hpr init (i % 2 ^ l.depth) hinit (by omega) (by rw [← hdep]; exact hlt) h1
+      by_cases heq : last ++ foldUp H leaf init i = l.root H ++ r.root H
+      · have h1 := List.append_inj_right heq (by rw [hlast, hlr])
+        rw [if_neg hbit]
+        rw [hfold] at h1
+        exact ihr hpr init (i % 2 ^ l.depth) hinit (by omega) (by rw [← hdep]; exact hlt) h1
+      · exact Or.inr ⟨_, _, by simp [hsub, hlast], by simp [hlr, hrr], heq, hroot⟩
 
-/-- Corollary used by C03: with a genuine proof accepted by `verify` against a block's tree, the
-    transaction presented at position 0 is the tree's first leaf and no other position can present
-    it unless it also occupies that position. -/
-theorem C04_accepted_is_leaf {H} (hH : IdealHash H) (t : Tree) (hp : t.Perfect)
+/-- Corollary used by C03: with a proof accepted by `verify` against a block's tree, the transaction presented at
+    position `i` is the tree's leaf at `i` (so the first transaction can be presented at position 0 only, and no other
+    transaction there) — or a collision is exhibited. -/
+theorem C04_accepted_is_leaf {H} (hH : Out32 H) (t : Tree) (hp : t.Perfect)
     (txid proof : Bytes) (i : Nat) (hdepth : proof.length / 32 = t.depth)
-    (hacc : verify H txid (t.root H) proof i = true) : txid = t.leafAt i := by
+    (hacc : verify H txid (t.root H) proof i = true) : txid = t.leafAt i ∨ Collision64 H := by
   obtain ⟨h1, _, h3, h4, h5⟩ := (C04_exact H txid (t.root H) proof i).mp hacc
   exact C04_position_binding hH t hp txid (chunks proof) i h1 (chunks_all32 proof h3)
     (by rw [chunks_length proof h3, hdepth]) (by rw [← hdepth]; exact h4) h5
+
+/-- **Two presentations of one position agree**: whatever is accepted at position `i` of the same tree is the same
+    leaf (or a collision is exhibited) — the tree need not be known to the verifier. -/
+theorem C04_same_position_same_leaf {H} (hH : Out32 H) (t : Tree) (hp : t.Perfect)
+    (tx1 tx2 pr1 pr2 : Bytes) (i : Nat) (hd1 : pr1.length / 32 = t.depth) (hd2 : pr2.length / 32 = t.depth)
+    (h1 : verify H tx1 (t.root H) pr1 i = true) (h2 : verify H tx2 (t.root H) pr2 i = true) :
+    tx1 = tx2 ∨ Collision64 H := by
+  rcases C04_accepted_is_leaf hH t hp tx1 pr1 i hd1 h1 with e1 | c
+  · rcases C04_accepted_is_leaf hH t hp tx2 pr2 i hd2 h2 with e2 | c
+    · exact Or.inl (e1.trans e2.symm)
+    · exact Or.inr c
+  · exact Or.inr c
+
+/-- the familiar form, under the idealisation -/
+theorem C04_position_binding_ideal {H} (hH : IdealHash H) (t : Tree) (hp : t.Perfect)
+    (leaf : Bytes) (path : List Bytes) (i : Nat)
+    (hl : leaf.length = 32) (hpath : ∀ c ∈ path, c.length = 32)
+    (hd : path.length = t.depth) (hi : i < 2 ^ t.depth)
+    (hroot : foldUp H leaf path i = t.root H) : leaf = t.leafAt i :=
+  (C04_position_binding hH.out32 t hp leaf path i hl hpath hd hi hroot).resolve_right hH.no_collision
+
+/-- non-vacuity: a genuine two-leaf tree, its genuine proof for position 1, with a hash of 32-byte outputs -/
+example : let H : Bytes → Bytes := fun b => (b.take 16 ++ b.drop 48 ++ List.replicate 32 0).take 32
+    let t := Tree.node (.leaf (List.replicate 32 1)) (.leaf (List.replicate 32 2))
+    Out32 H ∧ t.Perfect ∧ verify H (List.replicate 32 2) (t.root H) (List.replicate 32 1) 1 = true ∧
+      t.leafAt 1 = List.replicate 32 2 := by
+  refine ⟨?_, ⟨by simp [Tree.Perfect], by simp [Tree.Perfect], rfl⟩, by decide, by decide⟩
+  intro b
+  simp only [List.length_take, List.length_append, List.length_drop, List.length_replicate]
+  omega
 
 /-! ### The unrepaired function (pinned commit) violates the range clause — finding F2 -/
 
